@@ -939,6 +939,26 @@ theorem short_subset_long (f : Freq) (a b lag lead : Int) (h1 : lag ≤ 0) (h2 :
     have := (hs p).mp hp
     exact (hl p).mpr ⟨this.1, by omega, by omega⟩
 
+/-- the length of a unit-step `periods_from_until` is `b − a + 1` (0 when inverted) -/
+theorem pfu_unit_length (f : Freq) (a b : Int) (l : List Period)
+    (h : periodsFromUntil ⟨f, a⟩ ⟨f, b⟩ 1 = .ok l) : l.length = (b - a + 1).toNat := by
+  simp [periodsFromUntil, checkPeriods, bind, Except.bind, pure, Except.pure] at h
+  subst h
+  simp only [List.length_map, pyRange_length, pyRangeLen]
+  simp
+  split <;> omega
+
+/-- **Frame lengths.** The short span has `b − a + 1` periods and the long span `(b + max_lead) − (a + max_lag) + 1`
+(none when the shifts invert it): the long span is the short one plus `−max_lag` initial and `max_lead` terminal periods. -/
+theorem spansFromShort_lengths (f : Freq) (a b lag lead : Int) (hab : a ≤ b) (short long : List Period)
+    (h : spansFromShortSpan ⟨f, a⟩ ⟨f, b⟩ lag lead = .ok (short, long)) :
+    short.length = (b - a + 1).toNat ∧ long.length = ((b + lead) - (a + lag) + 1).toNat := by
+  obtain ⟨s, hs, -, hh, -⟩ := pfu_unit_spec f a b
+  obtain ⟨l, hl, -, -, -⟩ := pfu_unit_spec f (a + lag) (b + lead)
+  simp only [spansFromShortSpan, hs, (hh hab).1, (hh hab).2, Period.add, hl, bind, Except.bind, pure, Except.pure] at h
+  cases h
+  exact ⟨pfu_unit_length f a b _ hs, pfu_unit_length f _ _ _ hl⟩
+
 /-- **`extend_span`**: the start moves by `min_shift` exactly when an initial condition is prepended, the end by
 `max_shift` exactly when a terminal condition is appended; frequencies are kept; with both switches off it is the
 identity. -/
